@@ -121,8 +121,13 @@ def check_stored_as_rebuilt(ctx, g, embed):
             values = []
             for i, s_ in enumerate(p_.rhs):
                 if s_ == RAW:
-                    texts[i] = sent + ('' if i == raws[0] else ' /*2*/')
-                    values.append([Obj('Token', type='RAW', value=texts[i], index=0, end=len(texts[i]), lineno=1, _text=texts[i])])
+                    # a token list as the raw_query rules deliver it: several tokens, the last one a semicolon; the stand-in of tokens_to_string joins the values it
+                    # is handed, so a dropped, added or reordered token shows in the text
+                    words = ['select', sent + ('' if i == raws[0] else ' /*2*/'), ';']
+                    types = ['SELECT', 'QUOTE_STRING', 'SEMICOLON']
+                    toks_ = [Obj('Token', type=t_, value=w_, index=k_ * 10, end=k_ * 10 + len(w_), lineno=1) for k_, (t_, w_) in enumerate(zip(types, words))]
+                    texts[i] = ' '.join(words)
+                    values.append(toks_)
                 elif s_ in g.tokens:
                     values.append(spelling(g.lexer, s_) or s_)
                 elif s_ == 'identifier':
@@ -140,7 +145,14 @@ def check_stored_as_rebuilt(ctx, g, embed):
                 else:
                     values.append(None)
             stubs = dict(tok_stubs)
-            stubs['tokens_to_string'] = lambda it, toks: toks[0].attrs['_text'] if isinstance(toks, list) and len(toks) == 1 else '<several token lists joined>'
+            given = {id(v): i for i, v in enumerate(values) if p_.rhs[i] == RAW}
+            handed = []
+
+            def tts(it, toks, given=given, handed=handed):
+                handed.append(given.get(id(toks)))         # which raw token list this is (None: not one of them as it was given)
+                return ' '.join(str(t_.attrs.get('value')) for t_ in toks) if isinstance(toks, (list, tuple)) and all(isinstance(t_, Obj) for t_ in toks) else '<not a token list>'
+            stubs['tokens_to_string'] = tts
+            stubs['utils.tokens_to_string'] = tts
             it = Interp.for_file(ctx.src, g.file, {}, stubs, also=ast_files)
             label = f'[{p_}]:{SENTINELS.index(sent)}'
             try:
@@ -161,6 +173,15 @@ def check_stored_as_rebuilt(ctx, g, embed):
             n += 1
             held = {k: v for k, v in node.attrs.items() if k in STORE_FIELDS and v is not None}
             ok = sorted(held.values()) == sorted(texts.values()) if all(isinstance(v, str) for v in held.values()) else False
+            # every raw token list of the production is rebuilt, each exactly as the grammar delivered it (not sliced, filtered or joined with another one)
+            ctx.ob('C16.order-preserving', f'rebuilt:{label}', sorted(x for x in handed if x is not None) == sorted(given.values()) and None not in handed,
+                   f'{label}: tokens_to_string is handed {["raw query at position " + str(x) if x is not None else "another list" for x in handed]}; every raw_query of the '
+                   f'production ({sorted(given.values())}) must be rebuilt from the unmodified token list', file=g.file, line=fn.lineno)
+            if len(raws) == 2:
+                first, second = texts[raws[0]], texts[raws[1]]
+                ctx.ob('C16.order-preserving', f'two-queries:{label}', held.get('query_str') == first and held.get('if_query_str') == second,
+                       f'{label}: the first raw query must be stored as query_str and the second as if_query_str (got {held})', file=g.file, line=fn.lineno,
+                       witness='CREATE JOB j (select 1) IF (select 2)')
             ctx.ob('C16.text-is-token-values', f'stored:{label}', ok,
                    f'{label}: the rebuilt text(s) {list(texts.values())} are held by the {node.kind} node as {held}: the stored query is not the text tokens_to_string '
                    f'rebuilt (a rewrite of it also rewrites the string literals inside it)', file=g.file, line=fn.lineno,
@@ -263,91 +284,7 @@ def run(ctx):
         seen_fn.add(id(fn))
         pvar = fn.args.args[1].arg
         prods = g.prods_of_func(fn)
-        # every raw token list reaches tokens_to_string unmodified and lands in a query field
-        # the action itself and module-level helpers it hands the production slice to
-        mod_funcs = {n.name: n for n in ctx.src.tree(g.file).body if isinstance(n, ast.FunctionDef)}
-        scopes = [(fn, pvar, None)]
-        for n in ast.walk(fn):
-            if isinstance(n, ast.Call) and isinstance(n.func, ast.Name) and n.func.id in mod_funcs:
-                for i, a_ in enumerate(n.args):
-                    if isinstance(a_, ast.Name) and a_.id == pvar and i < len(mod_funcs[n.func.id].args.args):
-                        scopes.append((mod_funcs[n.func.id], mod_funcs[n.func.id].args.args[i].arg, n))
-        calls3 = [(n, pv, site) for f_, pv, site in scopes for n in ast.walk(f_) if isinstance(n, ast.Call) and (dotted(n.func) or '').split('.')[-1] == 'tokens_to_string']
-        names_used = set()
-        dest_sites = []      # (node in the action whose value is the text, key)
-        for c, pv, site in calls3:
-            if c.args and isinstance(c.args[0], ast.Attribute):
-                dest_sites.append((site if site is not None else c, f'{pvar}.{c.args[0].attr}'))
-        calls = [(c, pv) for c, pv, _ in calls3]
-        for c, pv in calls:
-            a = c.args[0] if c.args else None
-            alts = [a]
-            if isinstance(a, ast.Name):
-                # a local holding the token list: every assignment of it is a (conditional) choice between raw queries of the production
-                alts = []
-                scope_fn = next((f_ for f_, pv_, _ in scopes if pv_ == pv and any(x is c for x in ast.walk(f_))), fn)
-                for n_ in ast.walk(scope_fn):
-                    if isinstance(n_, ast.Assign) and any(isinstance(t_, ast.Name) and t_.id == a.id for t_ in n_.targets):
-                        stack_ = [n_.value]
-                        while stack_:
-                            v_ = stack_.pop()
-                            if isinstance(v_, ast.IfExp):
-                                stack_ += [v_.body, v_.orelse]
-                            else:
-                                alts.append(v_)
-            ok = bool(alts) and all(isinstance(x, ast.Attribute) and isinstance(x.value, ast.Name) and x.value.id == pv and x.attr.startswith(RAW) for x in alts)
-            if ok and len(alts) > 1 or (ok and alts[0] is not a):
-                names_used |= {x.attr for x in alts}
-            ctx.ob('C16.order-preserving', f'{fn.name}@{fn.lineno}:tokens_to_string({norm(a) if a is not None else ""})', ok,
-                   f'action {fn.name} passes `{norm(a) if a is not None else None}` to tokens_to_string instead of the unmodified token '
-                   f'list p.raw_query', file=g.file, line=c.lineno)
-            if ok and isinstance(a, ast.Attribute):
-                names_used.add(a.attr)
-        need = set()
-        for q in prods:
-            need |= {k for k in q.names if k.startswith(RAW)}
-        ctx.ob('C16.order-preserving', f'{fn.name}@{fn.lineno}:uses-all-raw-queries', need <= names_used,
-               f'action {fn.name} does not convert {sorted(need - names_used)} with tokens_to_string: that inner query is not stored',
-               file=g.file, line=fn.lineno)
         ctx.count('embedding_actions')
-        # where does each result go?  follow local names to constructor keywords
-        dest = {}
-        for c, key in dest_sites:
-            par = getattr(c, '_parent', None)
-            if isinstance(par, ast.Assign) and isinstance(par.targets[0], ast.Name):
-                var = par.targets[0].id
-                for n in ast.walk(fn):
-                    if isinstance(n, ast.keyword) and isinstance(n.value, ast.Name) and n.value.id == var:
-                        dest.setdefault(key, set()).add(n.arg)
-            elif isinstance(par, ast.keyword):
-                dest.setdefault(key, set()).add(par.arg)
-        # the text is stored as it is: a variable that holds it is not rebound to anything computed from it
-        for c, key in dest_sites:
-            par = getattr(c, '_parent', None)
-            if isinstance(par, ast.Assign) and isinstance(par.targets[0], ast.Name):
-                var = par.targets[0].id
-                for n in ast.walk(fn):
-                    rebinding = None
-                    if isinstance(n, ast.Assign) and any(isinstance(t, ast.Name) and t.id == var for t in n.targets) and n is not par:
-                        rebinding = n.value
-                    elif isinstance(n, ast.AugAssign) and isinstance(n.target, ast.Name) and n.target.id == var:
-                        rebinding = n.value
-                    if rebinding is None:
-                        continue
-                    harmless = (isinstance(rebinding, ast.Constant) and rebinding.value is None) or (
-                        isinstance(rebinding, ast.Call) and ((dotted(rebinding.func) or '').split('.')[-1] == 'tokens_to_string' or rebinding is c))
-                    ctx.ob('C16.text-is-token-values', f'{fn.name}@{fn.lineno}:{var}-rewritten', harmless,
-                           f'action {fn.name} rewrites the text of the embedded query after rebuilding it (`{var} = {norm(rebinding)[:70]}`): the stored query must be '
-                           f'the token text, any edit of it (splitting at `;`, stripping, re-joining) also edits string literals inside it', file=g.file, line=n.lineno,
-                           witness="CREATE JOB j (select 'a;b')")
-        for key, fields in sorted(dest.items()):
-            ctx.ob('C16.order-preserving', f'{fn.name}@{fn.lineno}:{key}->{sorted(fields)}', fields <= STORE_FIELDS and bool(fields),
-                   f'action {fn.name} stores the text of {key} in {sorted(fields)}', file=g.file, line=fn.lineno)
-        if f'{pvar}.{RAW}0' in dest or f'{pvar}.{RAW}1' in dest:
-            ok = dest.get(f'{pvar}.{RAW}0') == {'query_str'} and dest.get(f'{pvar}.{RAW}1') == {'if_query_str'}
-            ctx.ob('C16.order-preserving', f'{fn.name}@{fn.lineno}:two-queries', ok,
-                   f'action {fn.name}: the first raw query must be stored as query_str and the second as if_query_str '
-                   f'(got {dest})', file=g.file, line=fn.lineno, witness='CREATE JOB j (select 1) IF (select 2)')
     check_stored_as_rebuilt(ctx, g, embed)
     # the embedded query is rebuilt from the tokens of the text the LEXER was given: that text must be the caller's (C04's entry rules: parse_sql and any
     # `tokenize` override of the lexer classes hand the text on unchanged)
